@@ -78,6 +78,47 @@ def run(ctx):
     bic = core.hir_fn("blots_core::functions::BuiltInFunction::call")
     m = H.matches_on(bic["body"], "functions::BuiltInFunction")[0]
     argsname = H.pat_binds(bic["params"][1])[0]
+    # ---- R6 the checked comparison helper
+    ctx.rule("C12.R6", "check_ordering answers `expected.contains(ordering)` when the values are comparable and reports an error on every path when they are not (the checked operators never answer on incomparable operands; only ugt/ult/ugte/ulte do)", floor=2)
+    from lib import mir as M
+    CO = "blots_core::expressions::check_ordering"
+    try:
+        co = M.Fn(core.mir_fn(CO), CO)
+    except Exception:
+        co = None
+    if co is None:
+        ctx.inst("C12.R6", "check_ordering", None, "helper check_ordering not found (comparison arms decided by R1 only)", None)
+    else:
+        try:
+            regions, sw = M.variant_regions(co, "core::option::Option", root_param=1)
+        except CheckerError:
+            regions = None
+        if regions is None:
+            ctx.inst("C12.R6", "check_ordering", None, "no match on the Option<Ordering> parameter found", co.loc())
+        else:
+            res = {"None": [], "Some": []}
+            for b in range(co.n):
+                if co.blocks[b].get("cleanup"):
+                    continue
+                for st_ in co.stmts(b):
+                    if st_["k"] == "assign" and st_["rv"]["k"] == "agg" and st_["rv"].get("adt") == "core::result::Result" and st_["lhs"]["l"] == 0 and not st_["lhs"]["p"]:
+                        for reg in M.region_of(regions, b):
+                            res.setdefault(reg, []).append((st_["rv"]["variant"], b, st_))
+            none_ok = bool(res["None"]) and all(v == "Err" for v, _, _ in res["None"])
+            ctx.inst("C12.R6", "check_ordering[None]", none_ok, "results produced when the values are incomparable: %s (must be Err on every path)" % [v for v, _, _ in res["None"]], co.loc())
+            some_ok = bool(res["Some"])
+            det = []
+            for v, b, st_ in res["Some"]:
+                if v != "Ok":
+                    some_ok = False
+                    det.append("Err")
+                    continue
+                roots = co.trace(st_["rv"]["ops"][0])
+                good = bool(roots) and all(r[0] == "call" and r[1].endswith("contains") for r in roots)
+                some_ok = some_ok and good
+                det.append("Ok(%s)" % [r[1] if r[0] == "call" else r[0] for r in roots])
+            ctx.inst("C12.R6", "check_ordering[Some]", some_ok, "results when comparable: %s (must be Ok(expected.contains(ordering)))" % det, co.loc())
+
     ctx.rule("C12.R5", "ugt/ult/ugte/ulte compare args[0] with args[1] in that order, answer true exactly on the canonical orderings and false (never an error) when the values are not comparable", floor=4)
     for a in m["arms"]:
         vs = [H.last(v) for v in H.pat_variants(a["pat"])]
@@ -203,3 +244,25 @@ def run(ctx):
         ctx.inst("C12.R4", "compare#List#length-tie-break", okf, "final value %s" % (S.show(fin[1]) if fin else None), H.loc(CMP[key][1]["body"]))
     else:
         ctx.inst("C12.R4", "compare#List#first-difference", False, "no (List, List) arm in compare", None)
+
+
+def scalar_primitives(ctx, rid, core):
+    """the number / boolean / string rows of Value::equals and Value::compare are the IEEE / std primitives (shared with C11)"""
+    EQ, CMP = arm_leaves(core, "equals"), arm_leaves(core, "compare")
+
+    def single_value(tab, key):
+        if key not in tab:
+            return None
+        lv = [x for x in tab[key][0] if x[0] in ("value", "return", "when", "unless", "loop-over")]
+        return lv[0][1] if len(lv) == 1 and lv[0][0] == "value" else None
+
+    for kind in ("Number", "Bool"):
+        key = ("tup", (kind,), (kind,))
+        e, c = single_value(EQ, key), single_value(CMP, key)
+        ctx.inst(rid, "equals#%s" % kind, e == ("bin", "Eq", L, R), "equals: %s" % S.show(e) if e else "arm missing / not a single value", H.loc(EQ[key][1]["body"]) if key in EQ else None)
+        ctx.inst(rid, "compare#%s" % kind, c == ("call", "partial_cmp", L, R), "compare: %s (IEEE: -0 == 0, NaN unordered)" % S.show(c) if c else "arm missing / not a single value", H.loc(CMP[key][1]["body"]) if key in CMP else None)
+    key = ("tup", ("String",), ("String",))
+    e, c = single_value(EQ, key), single_value(CMP, key)
+    sl, sr = reified("as_string", L), reified("as_string", R)
+    ctx.inst(rid, "equals#String", e == ("bin", "Eq", sl, sr), "equals: %s" % (S.show(e) if e else None), H.loc(EQ[key][1]["body"]) if key in EQ else None)
+    ctx.inst(rid, "compare#String", c == ("call", "partial_cmp", sl, sr), "compare: %s" % (S.show(c) if c else None), H.loc(CMP[key][1]["body"]) if key in CMP else None)
